@@ -386,11 +386,36 @@ class Pairs(SubCheck):
         c = Matrix(*B)
         c.pre_cat(*A)
         forms.append(("B.pre_cat(A)", c))
+        # the right operand given as transform text (the operators accept a string wherever they accept a Matrix)
+        sB = "matrix(%s)" % ",".join(repr(float(v)) for v in B)
+        try:
+            forms.append(("A*str(B)", a * sB))
+            forms.append(("A@str(B)", a @ sB))
+            c = Matrix(*A)
+            c *= sB
+            forms.append(("A*=str(B)", c))
+            c = Matrix(*A)
+            c @= sB
+            forms.append(("A@=str(B)", c))
+        except Exception as e:  # noqa
+            out.fail("Matrix (op) transform-string raised %s" % type(e).__name__, None, repr(e), kind="exception", form="str")
         for nm, r in forms:
             if not mclose(mat_of(r), exp, tol):
                 out.fail("%s" % nm, list(exp), list(mat_of(r)), kind="product", form=nm)
         if mat_of(a) != A or mat_of(b) != B:
             out.fail("A*B modified an operand", kind="operand")
+        if A == B:
+            # the in-place operators with the object itself as right operand (m *= m): the square of A
+            sq = af.mul(A, A)
+            tol2 = 1e-12 * max(1.0, af.norm(sq))
+            for nm in ("A*=A", "A@=A"):
+                c = Matrix(*A)
+                if nm == "A*=A":
+                    c *= c
+                else:
+                    c @= c
+                if not mclose(mat_of(c), sq, tol2):
+                    out.fail("%s with the same object on both sides" % nm, list(sq), list(mat_of(c)), kind="product", form=nm)
         for p in PTS:
             l = Point(p) * ab
             r = (Point(p) * a) * b
